@@ -21,3 +21,17 @@ def soln_cat_roundtrip(ds):
     "loading the concatenated-solutions minimal serialization of a dataset back (in memory)"
     d = ds._serialize_minimal_soln_cat()
     return MazeDataset._load_minimal_soln_cat(d)
+
+
+# ---------------------------------------------------------------------------- C03: one generated item (what _generate_maze_helper composes)
+from maze_dataset.generation.generators import LatticeMazeGenerators
+
+
+def item_dfs(grid_shape, accessible_cells, max_tree_depth, do_forks, randomized_stack, start_coord, allowed_start, allowed_end, deadend_start, deadend_end, endpoints_not_equal):
+    maze = LatticeMazeGenerators.gen_dfs(grid_shape, 2, accessible_cells, max_tree_depth, do_forks, randomized_stack, start_coord)
+    return maze, maze.generate_random_path(True, allowed_start, allowed_end, deadend_start, deadend_end, endpoints_not_equal)
+
+
+def item_wilson(grid_shape, allowed_start, allowed_end, deadend_start, deadend_end, endpoints_not_equal):
+    maze = LatticeMazeGenerators.gen_wilson(grid_shape)
+    return maze, maze.generate_random_path(True, allowed_start, allowed_end, deadend_start, deadend_end, endpoints_not_equal)
